@@ -12,7 +12,7 @@ from overlay import parse_overlay, sig_contract_text, label_props, OverlayError
 
 VERIF = os.path.dirname(os.path.dirname(os.path.abspath(__file__)))
 REPO = os.environ.get('VERIF_REPO', '/repo')
-BUILD = os.path.join(VERIF, '.build')
+BUILD = os.environ.get('VERIF_BUILD', os.path.join(VERIF, '.build'))
 EXTRACTOR = os.path.join(VERIF, 'extractor', 'target', 'release', 'extractor')
 
 FLAVOURS = {
@@ -107,10 +107,15 @@ def build_extractor_config(flavour, cfg, files, units, bare=()):
             continue
         fcfg[fname] = {'keep_items': sorted(set(f['keep'])), 'units': [], 'drop_uses': f['drop_use'],
                        'item_extra': f['item_extra'], 'lifts': f.get('lifts', [])}
+    locals_base = {}
+    lp = os.path.join(VERIF, 'contracts', 'locals.json')
+    if os.path.exists(lp):
+        locals_base = json.load(open(lp))
     for u in active:
         if u['file'] not in fcfg:
             raise Undecided(f"unit {u['id']}: file {u['file']} has no `file` entry in the overlay")
         fcfg[u['file']]['units'].append({
+            'locals': locals_base.get(u['id'], []),
             'id': u['id'], 'at': u['at'], 'world': u['world'], 'ret': u['ret'],
             'sig_contract': sig_contract_text(u), 'attrs': u['attrs'],
             'loops': u['loops'], 'closures': u['closures'], 'hints': u['hints'],
